@@ -3,7 +3,7 @@
    nat stay the extracted inductive types). *)
 From Coq Require Import ZArith List Bool.
 From Coq Require Extraction ExtrOcamlBasic.
-From Cntgs Require Import Base Layout Mem Vector Proxy Elem World.
+From Cntgs Require Import Base Layout Mem Vector Proxy Elem Construct World.
 Extraction Language OCaml.
 Extraction "model.ml"
   align64 lowbit64 tr_align64 align_up lowbit tr_align
